@@ -412,6 +412,39 @@ fn one_case(ctx: &Ctx, case: u64, l: &mut Local) {
             } else {
                 l.count("pair.same-reject");
             }
+            // the JSON form is a JSON document: spelled with other white space / escapes (same
+            // members, same strings) it is still the same serialization of the same triple
+            if r.chance(25) {
+                if let Ok(doc) = serde_json::from_str::<Value>(&j) {
+                    let mode = 1 + r.below(5);
+                    let mut j2 = model::respell(&doc, mode);
+                    if r.chance(30) {
+                        j2 = format!("{}{}{}", r.pick(&["", " ", "\n", "\t\r\n"]), j2, r.pick(&["", " ", "\n", "\r\n  "]));
+                    }
+                    if serde_json::from_str::<Value>(&j2).ok().as_ref() == Some(&doc) && j2 != j {
+                        let b2 = api::verify(&j2, &res, pair, Fmt::Json).out;
+                        l.evals += 1;
+                        let same2 = match (&b, &b2) {
+                            (Outcome::Ok(x), Outcome::Ok(y)) => x == y,
+                            (Outcome::Err(_), Outcome::Err(_)) => true,
+                            _ => false,
+                        };
+                        if b2.is_panic() {
+                            l.violate(Violation { subcheck: "panic".into(), class: format!("{class} (respelled JSON)"), observed: b2.panic_signature().unwrap(), case, detail: json!({"credential": desc, "json": j2}) });
+                        } else if !same2 {
+                            l.violate(Violation {
+                                subcheck: "formats-diverge".into(),
+                                class: format!("{class}: JSON form respelled (mode {mode})"),
+                                observed: format!("canonical JSON={} respelled JSON={}", b.class(), b2.class()),
+                                case,
+                                detail: json!({"credential": desc, "class": class, "kb_requested": kbreq, "json": j, "json_respelled": j2}),
+                            });
+                        } else {
+                            l.count("pair.json-respelled.same");
+                        }
+                    }
+                }
+            }
         }
     }
     let _ = Value::Null;
